@@ -1,5 +1,5 @@
 """C02 — compress then decompress returns the input (structural clauses)."""
-from .. import flow, hir as H, hq, mir as M
+from .. import flow, hir as H, hq, lin as L, mir as M
 from ..core import Anchor
 from ..rules import cover, dom
 from . import c14
@@ -122,6 +122,9 @@ def run(ctx):
                     return (c.split("::")[-1], d[2], init)
             return (None, None, n)
 
+        ab_ = ctx.hir("ruzstd::fse::fse_encoder::FSETable::acc_log")
+        acc_log_is_ilog2 = hq.Canon(ab_)(hq.tail_expr(ab_["body"])) == "(core::num::ilog2(self.table_size) as u8)"
+
         def classify(w):
             a0, a1 = w["args"][0], w["args"][1]
             c0, p0, i0 = origin(a0)
@@ -134,7 +137,10 @@ def run(ctx):
                 if "FSETable::next_state(%s" % k in s0 and ".baseline" in s0 and ".index" in s0 and "FSETable::next_state(%s" % k in s1 and ".num_bits" in s1:
                     return "state:" + t
             for k, t in tbl.items():
-                if s1.startswith("(core::num::ilog2(%s.table_size)" % k) and ".index" in s0:
+                # width of a final state = the table's accuracy log: ilog2(table_size), or the acc_log() accessor
+                # (whose body is checked to be exactly that)
+                if (s1.startswith("(core::num::ilog2(%s.table_size)" % k) or
+                        (s1 == "(ruzstd::fse::fse_encoder::FSETable::acc_log(%s) as usize)" % k and acc_log_is_ilog2)) and ".index" in s0:
                     # which state variable: resolved through its start_state definition
                     return "init:" + t + ("" if ("FSETable::start_state(%s" % k in s0 or "FSETable::next_state(%s" % k in s0 or True) else "?")
             if H.lit_val(a0) == 1:
@@ -179,7 +185,19 @@ def run(ctx):
                   "each table's next state is looked up with its own code and current state", observed=sorted(nexts.values()))
         # the loop walks the sequences backwards from the second to last
         it = pv(loop[0]["iter"])
-        ctx.check(it.endswith(("Iterator::rev(0..=(core::slice::len($0) - 2))", "Iterator::rev(..=(core::slice::len($0) - 2))")), RO, "encode_sequences::backwards", b["file"],
+        # reversed range whose exclusive upper bound is len - 1 (`..=len-2` or `..len-1`), by linear arithmetic
+        okb = False
+        itn = hq.peel(loop[0]["iter"])
+        if itn.get("k") == "MethodCall" and itn["name"] == "rev" and (H.callee(itn) or "").endswith("Iterator::rev"):
+            rp = hq.range_parts(itn["recv"])
+            if rp is not None and (rp[0] is None or H.lit_val(rp[0]) == 0) and rp[1] is not None:
+                from ..rules import bounds as _b
+                lin_ = _b.make_lin(ix)
+                end = lin_.of(rp[1])
+                if rp[2]:
+                    end = L.add(end, ({}, 1))
+                okb = end == ({"len($0)": 1}, -1)
+        ctx.check(okb, RO, "encode_sequences::backwards", b["file"],
                   "sequences are encoded from the second to last down to the first", observed=it)
         # table descriptions LL, OF, ML
         cb = ctx.hir(ENC + "::compress_block")
